@@ -29,7 +29,10 @@ def explore(ck, hb, docs, reps=20):
     jobs = [{"id": i, "src": s, "n": reps, "want_ids": w} for i, (s, w, _) in enumerate(docs)]
     runs = []
     for p in range(3):  # three fresh processes; the third compiles with the cache option (repeated calls then share one parsed tree)
-        res, dead = common.run_jobs(hb, "repeat", [dict(j, cache=(p == 2)) for j in jobs], procs=8)
+        # the second run takes the documents in reverse order: every document then follows other compilations than in the first run
+        # ("regardless of what was compiled before")
+        order = jobs[::-1] if p == 1 else jobs
+        res, dead = common.run_jobs(hb, "repeat", [dict(j, cache=(p == 2)) for j in order], procs=8)
         runs.append(res)
         if dead:
             return [({"src": dead[0][0]["src"]}, "process died: " + dead[0][2][-200:])]
@@ -83,7 +86,7 @@ def run(ck):
     ck.sample({"document": FONTDOC, "calls": "20 in-process x 3 fresh processes"})
     ck.sample({"document": docs[-1][0][:300]})
     ck.cov["rule"] = ("fixtures + generated documents (weighted: several font families, mj-class, mj-attributes, several columns, carousels / "
-                      "hamburger navbars), each rendered 20x in-process in 3 fresh processes (the third with the cache option); equality after unifying 16-hex identifiers; "
+                      "hamburger navbars), each rendered 20x in-process in 3 fresh processes (the second taking the documents in reverse order, the third with the cache option); equality after unifying 16-hex identifiers; "
                       "identifier count = number of id-bearing components. Non-trivial: >= 2 of those features; distinct by source.")
     if not failing and (bad_sites or bad_calls):
         # a site lost its determinism class: search harder on multi-font / multi-class documents
